@@ -15,7 +15,9 @@ T = {
  "C01-m01": ("C01", "a filter whose AND contains an AndNot term next to an indexed term of a particular selectivity; only the indexed plan differs from the full scan",
              "caught", "quick seed 1", "c01 lookup-vs-scan differential signatures", None),
  "C02-q02": ("C02", "the full optimiser (index metadata present) and a group whose only term is a same-kind group of two or more terms, at any nesting level", "caught", "quick seed 1", "c02/optimise-changes-match, c02/duplicate-padding-changes-match, c02/optimise-not-idempotent-in-meaning", None),
- "C15-q15": ("C15", "an administrator-defined class with a non-system must attribute (dynamic schema, domain level <= 14), then a create omitting it or a modify purging it", None, None, None, None),
+ "C15-q15": ("C15", "an administrator-defined class with a non-system must attribute (dynamic schema, domain level <= 14), then a create omitting it or a modify purging it",
+             "caught", "quick seed 1", "c15/missing-required-attribute/after-ill_formed",
+             "missed at first (the administrator-defined classes of the workload only allowed their attribute); one of the two custom classes now requires it, and two new ill-formed request kinds take the class without the attribute / drop the attribute"),
  "C20-q20": ("C20", "an access profile granting present+removed on uuid and a modlist mixing the uuid writes with a change of another attribute that also changes the entry's unique attributes", None, None, None, None),
  "C31-q31": ("C31", "a badlist entry with a non-ASCII cased letter, submitted with that letter in upper case, strong enough to reach the badlist step, through a credential update session", None, None, None, None),
  "C40-q40": ("C40", "an LDAP compare whose DN names an entry that exists but is invisible to the bound identity", None, None, None, None),
